@@ -156,16 +156,16 @@ func VfC24_Gate() {
 //vf:override (*github.com/hashicorp/serf/cmd/serf/command/agent.AgentIPC).handleGetCoordinate = github.com/hashicorp/serf/cmd/serf/command/agent.vfEffect2
 //vf:override (*github.com/hashicorp/serf/cmd/serf/command/agent.AgentIPC).handleMembers = github.com/hashicorp/serf/cmd/serf/command/agent.vfEffect3
 //vf:override (*github.com/hashicorp/serf/cmd/serf/command/agent.IPCClient).Send = github.com/hashicorp/serf/cmd/serf/command/agent.vfStubSend
-//vf:unwind 8
+//vf:unwind 10
 //vf:paths quick=400000 thorough=4000000
-//vf:bound sequence 3 requests on a fresh connection (stops when the connection is ended), same request space as VfC24_Gate
+//vf:bound sequence quick=3 thorough=4 requests on a fresh connection (stops when the connection is ended), same request space as VfC24_Gate
 //vf:stub as VfC24_Gate
 //vf:nonative
 func VfC24_Seq3() {
 	vfSent, vfEffects = nil, nil
 	i := vfC24IPC()
 	c := &IPCClient{name: "c"}
-	for k := 0; k < 3; k++ {
+	for k := 0; k < 3+vfTier(); k++ {
 		if !vfC24Step(i, c, uint64(k+1), "C24.seq") {
 			break
 		}
